@@ -1,10 +1,13 @@
 package main
 
 import (
+	"bufio"
 	"encoding/binary"
 	"fmt"
 	"io"
 	"os"
+
+	"github.com/openacid/low/pbcmpl"
 )
 
 // C07: truncation, write failure, corrupt headers.  Message kinds, reader, writer,
@@ -60,6 +63,35 @@ func init() {
 	// [kind, [hasver, ver, payload], [[accept, fail], ...]]
 	Exec["pbcmpl.Marshal/faulty"] = func(a []V) string {
 		return c06RunMarshal(a[0].Int(), a[1], a[2].L)
+	}
+	// [kind, stream bytes, chunk pattern, terminal kind, bufio size]: Unmarshal until the first error over a *bufio.Reader
+	Exec["pbcmpl.Unmarshal/bufio"] = func(a []V) string {
+		kind := a[0].Int()
+		s := a[1].Bytes()
+		c07About("pbcmpl.Unmarshal/bufio", s, func() string { return c07ArgsText(a) })
+		br := bufio.NewReaderSize(c06NewReader(s, a[2].I64s(), a[3].Int(), false), a[4].Int())
+		var steps []string
+		for i := 0; i <= len(s)/32+2; i++ {
+			msg := c06Blank(kind)
+			n, ver, err := pbcmpl.Unmarshal(br, msg)
+			var payload []byte
+			if err == nil {
+				payload = c06Payload(msg)
+			}
+			steps = append(steps, L(I(n), Str(ver), Int(c06ErrClass(err)), Bytes(payload)))
+			if err != nil {
+				break
+			}
+		}
+		return L(steps...)
+	}
+	// [kind, [[msg, script], ...]]: Marshal calls one after the other in this process
+	Exec["pbcmpl.Marshal/session"] = func(a []V) string {
+		var outs []string
+		for _, c := range a[1].L {
+			outs = append(outs, c06RunMarshal(a[0].Int(), c.L[0], c.L[1].L))
+		}
+		return L(outs...)
 	}
 	// widening: [kind, [chunk...], terminal kind, with last]: explicit chunks, empty ones included
 	Exec["pbcmpl.Unmarshal/chunks"] = func(a []V) string {
@@ -130,6 +162,16 @@ func genC07(g *Gen) {
 	stream := func(kind int, s []byte, pat []int64, tk int, wl bool, key, bucket string) {
 		g.Stat(bucket)
 		g.Do("pbcmpl.Unmarshal/stream", L(Int(kind), Bytes(s), I64s(pat), Int(tk), B(wl)), key)
+		// the same bytes through a *bufio.Reader (every stream of the cut sweeps when the error is delivered alone;
+		// every 4th of the others): buffer 4096 mostly, small buffers too
+		if !wl && (g.Thorough || bucket == "cut-every-point" || bucket == "cut-second-frame" || nstream%4 == 1) {
+			bsz := 4096
+			if nstream%5 == 2 {
+				bsz = g.R.Pick(16, 32, 40, 64, 600)
+			}
+			g.Stat("bufio:" + bucket)
+			g.Do("pbcmpl.Unmarshal/bufio", L(Int(kind), Bytes(s), I64s(pat), Int(tk), Int(bsz)), fmt.Sprintf("buf%d/%s", bsz, key))
+		}
 		// widening: the same bytes walked with ReadHeader + io.ReadFull (every 3rd stream; every one when thorough)
 		nstream++
 		if g.Thorough || nstream%3 == 0 {
@@ -222,6 +264,77 @@ func genC07(g *Gen) {
 				do(c07Script([2]int64{-3, 1}), 0, "negative")
 			}
 		}
+	}
+	// writers failing with a TEMPORARY error (net-timeout style: Temporary() == true), once or persistently,
+	// on the header write or on the body write: Marshal must return that error and the count, never retry
+	for kind := 0; kind <= 1; kind++ {
+		for _, bl := range []int{0, 5, 40} {
+			payload := c06Payloadgen(g.R, bl)
+			m := c06MsgText(g.R.Bool(), c06Ver(g.R, g.R.Range(0, 16), 0), payload)
+			flen := 32 + len(c07BodyEnc(kind, payload))
+			do := func(script string, k int, how string) {
+				g.Stat("writer-temporary-error")
+				g.Do("pbcmpl.Marshal/faulty", L(Int(kind), m, script), fmt.Sprintf("wt/k%d/b%s/%s/%s", kind, c06LenClass(bl), cutClass(k, flen), how))
+			}
+			t := func(k int) [2]int64 { return [2]int64{int64(k), 2} }
+			for _, k := range []int{0, 1, 16, 31, 32} {
+				do(c07Script(t(k)), k, "hdr-once")
+				do(c07Script(t(k), t(0), t(0), t(0), t(0), t(0)), k, "hdr-persistent")
+				do(c07Script(t(k), t(1), t(0), t(2), t(0), t(0)), k, "hdr-persistent-progress")
+				do(c07Script(t(k), t(0), [2]int64{0, 1}), k, "hdr-temp-then-hard")
+			}
+			for _, kb := range []int{0, 1, bl / 2, bl} {
+				ok := [2]int64{32, 0}
+				do(c07Script(ok, t(kb)), 32+kb, "body-once")
+				do(c07Script(ok, t(kb), t(0), t(0), t(0), t(0), t(0)), 32+kb, "body-persistent")
+			}
+		}
+	}
+	// Marshal histories in one process: versions that are proper prefixes of the previous one with equal body
+	// lengths (and the other way round), good writers and writers failing after k bytes
+	for kind := 0; kind <= 1; kind++ {
+		for _, pr := range [][]string{{"1.0.12", "1.0.1"}, {"1.0.1", "1.0.12", "1.0.1"}, {"ab", ""}, {"0123456789abcdef", "0123456789abcde", "0123"}, {"2.0", "2", "2.0.0"}} {
+			for _, bl := range []int{0, 3, 40} {
+				for _, k := range []int{-1, 0, 3, 6, 16, 31, 33} {
+					var calls []string
+					for _, ver := range pr {
+						sc := c07Script()
+						if k >= 0 && k <= 32 {
+							sc = c07Script([2]int64{int64(k), 1})
+						} else if k > 32 {
+							sc = c07Script([2]int64{32, 0}, [2]int64{int64(k - 32), 1})
+						}
+						calls = append(calls, L(c06MsgText(true, ver, c06Payloadgen(g.R, bl)), sc))
+					}
+					calls = append(calls, L(c06MsgText(false, "", c06Payloadgen(g.R, bl)), c07Script()))
+					g.Stat("marshal-session-prefix-versions")
+					g.Do("pbcmpl.Marshal/session", L(Int(kind), L(calls...)), fmt.Sprintf("ms/k%d/%s/b%d/f%d", kind, pr[1], bl, k))
+				}
+			}
+		}
+	}
+	n0 := g.N(100, 3000)
+	for i := 0; i < n0; i++ {
+		kind := g.R.Intn(2)
+		bl := g.R.Range(0, 20)
+		base := c06Ver(g.R, g.R.Range(1, 16), 0)
+		var calls []string
+		for c, nc := 0, g.R.Range(2, 5); c < nc; c++ {
+			ver := base[:g.R.Range(0, len(base))]
+			if len(ver) > 0 && ver[len(ver)-1] == 0 {
+				ver = base
+			}
+			if g.R.Intn(4) == 0 {
+				bl = g.R.Range(0, 20)
+			}
+			sc := c07Script()
+			if g.R.Intn(3) == 0 {
+				sc = c07Script([2]int64{int64(g.R.Range(0, 32)), 1})
+			}
+			calls = append(calls, L(c06MsgText(g.R.Intn(5) != 0, ver, c06Payloadgen(g.R, bl)), sc))
+		}
+		g.Stat("marshal-session-random")
+		g.Do("pbcmpl.Marshal/session", L(Int(kind), L(calls...)), fmt.Sprintf("ms/k%d/rand", kind))
 	}
 	// widening: a message whose own Marshal fails: (0, that error), nothing written, whatever the writer
 	// would have done and whatever the version (even one longer than 16 bytes: newHeader is never reached)
